@@ -17,15 +17,15 @@ def gen(tier, seed):
     if tier != "quick":
         # degree 5 and four interior knots: a random third of the exhaustive family (the full one is 2834 shapes)
         vecs += [v for v in shape_vectors(5, 4, pmin=5) + [w for w in shape_vectors(4, 4) if len(w["mults"]) == 4]
-                 if rnd.random() < 0.12]
-    nrand = 60 if tier == "quick" else 600
+                 if rnd.random() < 0.05]
+    nrand = 60 if tier == "quick" else 300
     vecs += [random_vector(rnd, pmax=4 if tier == "quick" else 5, big=(i % 3 == 0)) for i in range(nrand)]
     cases = []
     for v in vecs:
         U, p = v["U"], v["p"]
         n = npts_of(U, p)
         nodes = node_set(U, p)
-        variants = [(1, False), (2, True)] if tier == "quick" else [(1, False), (1, True), (2, False), (2, True)]
+        variants = [(1, False), (2, True)] if (tier == "quick" or p >= 3) else [(1, False), (1, True), (2, False), (2, True)]
         for dim, rational in variants:
             if tier == "quick" and v["kind"] == "uniform" and dim == 2:
                 continue
